@@ -184,7 +184,17 @@ def main(argv=None):
     errors = []
     ctx = mp.get_context('fork')
     faulthandler.dump_traceback_later(cap + 300, exit=True)
-    with cf.ProcessPoolExecutor(max_workers=a.workers, mp_context=ctx) as ex:
+    ex = cf.ProcessPoolExecutor(max_workers=a.workers, mp_context=ctx)
+    def _kill_workers(*_):
+        for p_ in list(getattr(ex, '_processes', {}).values()):
+            try: p_.kill()
+            except Exception: pass
+    def _on_term(signum, frame):
+        _kill_workers()
+        os._exit(2)
+    signal.signal(signal.SIGTERM, _on_term)
+    signal.signal(signal.SIGINT, _on_term)
+    try:
         futs = []
         pending = collections.deque(jobs)
         live = set()
@@ -202,6 +212,13 @@ def main(argv=None):
             if REAL_MONO() - t0 > cap and not stop:
                 stop = True
                 pending.clear()
+            if REAL_MONO() - t0 > cap + 2 * per_run_wall + 30:
+                errors.append('batch exceeded its wall-clock cap by more than two run guards: workers killed')
+                _kill_workers()
+                break
+    finally:
+        _kill_workers() if errors and 'workers killed' in errors[-1] else None
+        ex.shutdown(wait=False, cancel_futures=True)
     faulthandler.cancel_dump_traceback_later()
 
     wall = REAL_MONO() - t0
